@@ -72,10 +72,11 @@ type c08Case struct {
 	Ctor     string            `json:"ctor,omitempty"` // newfs | withfs | new | vue
 	Ops      []c08Op           `json:"ops,omitempty"`
 	// labels (coverage cells only)
-	Entry   string `json:"entry,omitempty"`
-	Shape   string `json:"shape,omitempty"`
-	Kinds   string `json:"kinds,omitempty"`
-	Pattern int    `json:"pattern,omitempty"`
+	Entry   string     `json:"entry,omitempty"`
+	Shape   string     `json:"shape,omitempty"`
+	Kinds   string     `json:"kinds,omitempty"`
+	Pattern int        `json:"pattern,omitempty"`
+	Shared  *c08Shared `json:"shared,omitempty"` // part shared (c08_shared.go)
 }
 
 // ---------------------------------------------------------------- registration
@@ -112,7 +113,7 @@ func (p *c08) Rule() string {
 var c08Entries = []string{"load-write-render", "withfs-load-write-render", "write-load-render", "write-renderfile", "write-renderstring", "vue-render", "vue-fragment"}
 var c08Shapes = []string{"map", "struct-tag", "struct-name", "ptr-tag", "ptr-name", "struct-untagged", "struct-omitempty", "ptr-omitempty", "map-named", "map-string"}
 var c08Types = []string{"s", "i", "b", "l", "m", "n"} // n: strings, but the front-matter holds the key with a YAML null ("key: ~")
-var c08Kinds = []string{"FF", "FA", "AF", "AA"} // kind of the earlier write, kind of the later write
+var c08Kinds = []string{"FF", "FA", "AF", "AA"}       // kind of the earlier write, kind of the later write
 
 const c08NFiles = 32 // 2^4 data-file subsets x root theme present/absent
 
@@ -163,7 +164,7 @@ func c08HistSeqs(ctx core.Ctx) [][]int {
 func (p *c08) nRandom(ctx core.Ctx) int { return ctx.Pick(20000, 200000) }
 
 func (p *c08) Plan(ctx core.Ctx) int {
-	return p.nMatrix() + c08NFiles + len(c08HistSeqs(ctx)) + p.nRandom(ctx)
+	return c08NShared() + p.nMatrix() + c08NFiles + len(c08HistSeqs(ctx)) + p.nRandom(ctx)
 }
 
 func (p *c08) Decode(raw json.RawMessage) (any, error) { return core.JSONDecode[c08Case](raw) }
@@ -171,6 +172,10 @@ func (p *c08) Decode(raw json.RawMessage) (any, error) { return core.JSONDecode[
 // ---------------------------------------------------------------- generation
 
 func (p *c08) Gen(ctx core.Ctx, i int) any {
+	if i < c08NShared() {
+		return c08GenShared(i)
+	}
+	i -= c08NShared()
 	if i < p.nMatrix() {
 		return c08GenMatrix(i)
 	}
@@ -738,6 +743,10 @@ func (p *c08) Exec(ctx core.Ctx, cc any) core.Obs {
 	c := cc.(c08Case)
 	var o core.Obs
 	if c.Part == "" {
+		return o
+	}
+	if c.Part == "shared" && c.Shared != nil {
+		c08ExecShared(c, &o)
 		return o
 	}
 	x := &c08Run{c: c, o: &o}
